@@ -180,7 +180,7 @@ func (fc *FnCtx) run() (err error) {
 		if sl, ok := p.Type().Underlying().(*types.Slice); ok {
 			if b, ok := sl.Elem().Underlying().(*types.Basic); ok && b.Kind() == types.Uint8 {
 				arr := fc.heapGet(st, "M:bv8.", memSort(sBV(8)))
-				for k := 0; k < 48; k++ {
+				for k := 0; k < 64; k++ {
 					fc.watchBase = append(fc.watchBase, watch{fmt.Sprintf("%s[%d]", p.Name(), k),
 						sx("select", sx("select", arr, v.T[0]), sx("bvadd", v.T[1], bvLit(uint64(k), 64)))})
 				}
@@ -212,6 +212,15 @@ func (fc *FnCtx) run() (err error) {
 			fc.assumeGlobal(env.evalBool(r.E))
 			fc.assumptions[fmt.Sprintf("assume in %s: %s", fc.name, r.Text)] = true
 		}
+		// witness classes of known findings are evaluated over the entry state
+		fc.witness = map[string]string{}
+		for _, k := range fc.e.known {
+			if k.Kind == "known" && strings.HasPrefix(k.Obligation, fc.name+"#") && k.Witness != "" && k.Witness != "*" {
+				if wx, err := ParseExpr(k.Witness); err == nil {
+					fc.witness[k.Obligation] = fc.def("witness", sBool, env.evalBool(wx))
+				}
+			}
+		}
 		if !fc.dry {
 			// vacuity guard: the preconditions must be satisfiable
 			o := fc.oblige("cover", "requires_satisfiable", "true", fn.Pos(), nil, "")
@@ -220,6 +229,17 @@ func (fc *FnCtx) run() (err error) {
 	}
 	for _, b := range order {
 		fc.execBlock(b)
+	}
+	if fc.c != nil && !fc.dry && len(fc.retReach) > 0 {
+		// vacuity guard: under the assumed contracts some return is reachable
+		fc.reach = "true"
+		o := fc.oblige("cover", "some_return_reachable", or(fc.retReach...), fn.Pos(), nil, "")
+		o.ExpectSat = true
+		// canary: "false" must not be provable at the returns, with every assumed fact in the context
+		fc.reach = fc.def("anyret", sBool, or(fc.retReach...))
+		cn := fc.oblige("canary", "false_not_provable", "false", fn.Pos(), nil, "")
+		cn.Canary = true
+		fc.reach = "true"
 	}
 	return nil
 }
@@ -1272,7 +1292,11 @@ func (fc *FnCtx) checkPosts(results []V, pos token.Pos, site string) {
 			// positional binding of the other contract's names
 			env.vars = map[string]V{}
 			all := fc.fn.Params
-			for i, n := range c.Params {
+			names := c.Params
+			if c.Kind == "functype" {
+				names = names[1:] // the first name denotes the function value itself
+			}
+			for i, n := range names {
 				if i < len(all) {
 					env.vars[n] = fc.vals[all[i]]
 				}
@@ -1286,6 +1310,17 @@ func (fc *FnCtx) checkPosts(results []V, pos token.Pos, site string) {
 				env.vars[n] = rv
 			}
 		}
+		pre := "true"
+		if c != fc.c {
+			// behavioural subtyping: the other contract's ensures must hold whenever its requires held on entry
+			envPre := fc.newEnv(fc.entry, fc.entry)
+			envPre.vars = env.vars
+			var ps []string
+			for _, r := range c.Requires {
+				ps = append(ps, envPre.evalBool(r.E))
+			}
+			pre = and(ps...)
+		}
 		for _, en := range c.Ensures {
 			props := en.Props
 			if len(props) == 0 {
@@ -1295,8 +1330,7 @@ func (fc *FnCtx) checkPosts(results []V, pos token.Pos, site string) {
 			if c != fc.c {
 				lbl = c.Name + "." + lbl
 			}
-			o := fc.oblige(kind, lbl, env.evalBool(en.E), pos, props, en.Text)
-			_ = o
+			fc.oblige(kind, lbl, implies(pre, env.evalBool(en.E)), pos, props, en.Text)
 		}
 	}
 	check(fc.c, "post")
@@ -1312,9 +1346,7 @@ func (fc *FnCtx) checkPosts(results []V, pos token.Pos, site string) {
 		}
 		check(ic, "impl")
 	}
-	// cover: this return is reachable under the assumed contracts
-	o := fc.oblige("cover", "return_reachable"+site, "true", pos, nil, "")
-	o.ExpectSat = true
+	fc.retReach = append(fc.retReach, fc.reach)
 }
 
 func (fc *FnCtx) runDefers() {
